@@ -40,6 +40,7 @@ import (
 	goparser "go/parser"
 	"go/token"
 	"hash/crc32"
+	"io"
 	"math/rand"
 	"net"
 	"os"
@@ -52,6 +53,7 @@ import (
 	"strconv"
 	"strings"
 	"testing"
+	"testing/iotest"
 	"time"
 
 	"github.com/tonkeeper/tongo/tl"
@@ -1058,7 +1060,7 @@ func TestVerifStandin_C10_Wire(t *testing.T) {
 		"rc_wellknown_id_mismatch", "rc_go_type_missing_for_declaration",
 		"rc_go_struct_shape_mismatch", "rc_generated_type_without_schema_decl",
 		"rc_marshal_error", "rc_marshal_panics", "rc_marshal_bytes_differ_from_schema",
-		"rc_unmarshal_error", "rc_unmarshal_panics", "rc_unmarshal_leaves_bytes", "rc_unmarshal_value_differs",
+		"rc_unmarshal_error", "rc_unmarshal_panics", "rc_unmarshal_leaves_bytes", "rc_unmarshal_value_differs", "rc_unmarshal_depends_on_read_segmentation",
 		"rc_request_method_missing", "rc_request_frame_bytes_differ", "rc_request_adnl_frame_malformed",
 		"rc_request_frame_count", "rc_request_answer_not_delivered", "rc_request_response_value_differs",
 		"rc_request_response_error", "rc_request_error_response_not_returned", "rc_request_method_panics",
@@ -1219,6 +1221,33 @@ func TestVerifStandin_C10_Wire(t *testing.T) {
 			}
 			if d := c10Equal(rv, ptr.Elem(), it.goName); d != "" {
 				fails.addFor("rc_unmarshal_value_differs", it.goName, "%s: %s\n    input %s\n    want %s\n    got  %s", id, d, c10Hex(exp), c10GoSyntax(rv.Interface()), c10GoSyntax(ptr.Elem().Interface()))
+			}
+		}
+		// the wire format is a byte sequence: how the reader hands the bytes out (all at once, one at a time, in halves —
+		// what a socket, a pipe or a buffered reader does) must not change what is parsed
+		for _, seg := range []struct {
+			name string
+			wrap func(io.Reader) io.Reader
+		}{{"one_byte_reads", iotest.OneByteReader}, {"half_reads", iotest.HalfReader}} {
+			ptr2 := reflect.New(rv.Type())
+			var err2 error
+			p2 := c10Safe(func() {
+				r := seg.wrap(bytes.NewReader(exp))
+				if u, ok := ptr2.Interface().(tl.UnmarshalerTL); ok {
+					err2 = u.UnmarshalTL(r)
+				} else {
+					err2 = tl.Unmarshal(r, ptr2.Interface())
+				}
+			})
+			switch {
+			case p2 != "":
+				fails.addFor("rc_unmarshal_depends_on_read_segmentation", it.goName, "%s: %s: %s; input %s", id, seg.name, p2, c10Hex(exp))
+			case (err2 == nil) != (err == nil && p == ""):
+				fails.addFor("rc_unmarshal_depends_on_read_segmentation", it.goName, "%s: %s: error %v, whole input: error %v; input %s", id, seg.name, err2, err, c10Hex(exp))
+			case err2 == nil:
+				if d := c10Equal(ptr.Elem(), ptr2.Elem(), it.goName); d != "" {
+					fails.addFor("rc_unmarshal_depends_on_read_segmentation", it.goName, "%s: %s: %s; input %s", id, seg.name, d, c10Hex(exp))
+				}
 			}
 		}
 	}
